@@ -448,6 +448,10 @@ func (x *Exec) newPeer(name string, j Join) *peer {
 		// a network peer comes with transport details, including authentication
 		// data that must never be shown to other sessions (C12)
 		td := wamp.Dict{"kind": "verif", "auth": wamp.Dict{"cookie": "secret-" + name}}
+		if strings.HasSuffix(name, "1") || strings.HasSuffix(name, "3") {
+			// some transports have nothing but authentication data to tell
+			td = wamp.Dict{"auth": wamp.Dict{"cookie": "secret-" + name}}
+		}
 		go func() {
 			if err := x.rt.AttachClient(rp, td); err != nil {
 				p.mu.Lock()
@@ -655,6 +659,8 @@ func pubOptions(x *Exec, o Opts) wamp.Dict {
 	d := wamp.Dict{}
 	if o.Ack {
 		d["acknowledge"] = true
+	} else if len(o.Xl)%2 == 1 || o.Xme == "f" {
+		d["acknowledge"] = false // explicitly unacknowledged
 	}
 	switch o.Xme {
 	case "t":
@@ -1292,6 +1298,10 @@ func (x *Exec) abstract(p *peer, s stamped) Msg {
 		}
 		return r
 	case *wamp.Error:
+		if m.Type == wamp.ERROR {
+			// the router's answer to a refused ERROR message (not a request): not compared
+			return blank("IGNORED", s.t)
+		}
 		r := blank("ERROR", s.t)
 		r.A = int(m.Type)
 		r.Req = int(m.Request)
@@ -1474,7 +1484,7 @@ func (x *Exec) collect(in Input) ([][]SessOut, []Bind) {
 		so := SessOut{S: name}
 		for _, s := range raw {
 			m := x.abstract(p, s)
-			if p.silent && m.K == "ABORT" {
+			if (p.silent && m.K == "ABORT") || m.K == "IGNORED" {
 				continue // whether a peer that never said anything is told ABORT is left open
 			}
 			if p.hs && m.K == "WELCOME" {
@@ -1531,7 +1541,7 @@ func (x *Exec) collect(in Input) ([][]SessOut, []Bind) {
 				}
 			}
 		}
-		if !p.tainted {
+		if !p.tainted && len(so.M) > 0 {
 			outs[p.realm] = append(outs[p.realm], so)
 		}
 	}
@@ -1895,6 +1905,8 @@ func (t *tableAuthorizer) Authorize(sess *wamp.Session, msg wamp.Message) (bool,
 					m.Arguments, m.ArgumentsKw = payload("rw")
 				}
 			case *wamp.Yield:
+				m.Arguments, m.ArgumentsKw = payload("rw")
+			case *wamp.Error:
 				m.Arguments, m.ArgumentsKw = payload("rw")
 			}
 			return true, nil
